@@ -453,6 +453,66 @@ def promoted_consts(body, op_or_const):
     return out
 
 
+def param_fields(body, du, op, facts, param=1, extra_pass=()):
+    """names of the fields of parameter `param` (a struct of the workspace, possibly behind references) that the operand derives
+    from, following copies, reborrows, deref/iter-style accessors and captured closure environments"""
+    if op is None or op.place is None: return set()
+    sl = Slice(body, du, extra_pass=("=deref", "=deref_mut", "=as_slice", "=as_mut_slice", "=iter", "=iter_mut", "=into_iter", "=as_ref", "=as_mut", "=borrow", "=borrow_mut", "=by_ref") + tuple(extra_pass))
+    sl.origins(op)
+    ty = body.ty(param).replace("&mut ", "").replace("&", "").strip()
+    name = ty.split("<")[0].split("::")[-1]
+    names = None
+    for u in facts.units:
+        for it in u.items:
+            if it.get("kind") == "Struct" and it.get("path", "").split("::")[-1] == name and it.get("variants"):
+                names = [x["name"] for x in it["variants"][0].get("fields", [])]
+    out = set()
+    for (l, proj) in sl.last_seen:
+        if l != param or not proj: continue
+        e = proj[0]
+        if e.startswith("."):
+            try: k = int(e[1:])
+            except ValueError: continue
+            out.add(names[k] if names and k < len(names) else e)
+    return out
+
+
+def const_option_bool(body, sl, op):
+    """value of a constant Option<bool> operand: "N" (None), "T" (Some(true)), "F" (Some(false)); None when it is not one known
+    constant (a promoted `&Some(true)`, a local built as such, or a constant ADT value)"""
+    from .facts import promoted_body
+    cands = []
+    def from_stmts(stmts):
+        for st in stmts:
+            if st.kind == "assign" and st.rv == "agg" and isinstance(st.agg, dict) and "Option" in st.agg.get("adt", ""):
+                var = st.agg.get("variant")
+                if var == "None": cands.append("N")
+                elif var == "Some" and st.ops and st.ops[0].is_const and st.ops[0].cint() is not None: cands.append("T" if st.ops[0].cint() else "F")
+                else: cands.append(None)
+            elif st.kind == "assign" and st.rv == "use" and st.ops and st.ops[0].is_const:
+                v = str((st.ops[0].const or {}).get("val", "") or "")
+                if v: cands.append(from_val(v))
+    def from_val(v):
+        v = v.replace(" ", "")
+        if v.endswith("Some(true)"): return "T"
+        if v.endswith("Some(false)"): return "F"
+        if v.endswith("None"): return "N"
+        return None
+    for k, o in sl.origins(op, follow_agg=False):
+        if k == "const":
+            c = o.const or {}
+            dbg = str(c.get("dbg", "") or c.get("str", "") or "")
+            if "promoted[" in dbg:
+                pb = promoted_body(body, dbg)
+                if pb is not None: from_stmts(pb.stmts())
+                else: cands.append(None)
+            elif c.get("val"): cands.append(from_val(str(c["val"])))
+            else: cands.append(None)
+        elif k == "agg": from_stmts([o])
+        else: cands.append(None)
+    return cands[0] if len(cands) == 1 else None
+
+
 def const_strings(body, sl, op):
     """string constants an operand can evaluate to, resolving promoted references"""
     out = []
